@@ -1,8 +1,122 @@
 /-
-C02 — property theorems (first stage: the configuration sets).
+C02 — property theorems: observable behaviour is independent of the JIT / optimisation configuration,
+for the configuration-dependent mechanisms modelled in `Model.lean` on the lowered core of C01.
+
+(a) `inline_preserves`, `inline_prog_preserves`, `inline_twice_preserves` — the inlining pass;
+(b) `tier_transparent`, `tier_hypothesis_needed` — interpreter / native hand-over;
+(c) `inline_history_partial`, `inline_history_false` — pieces evaluated one after another over global cells;
+(d) `switches_covered`, `switch_tests_recognised`, `quick_pairwise`, `thorough_complete` — the configuration sets
+    of the differential run against the switches extracted from the source.
 -/
-import SteelVerif.C02.Model
+import SteelVerif.C02.LemmasHist
+import SteelVerif.C02.LemmasTier
 namespace SteelVerif.C02
+open SteelVerif.C01
+
+/-! ## (a) Inlining -/
+
+/-- **One pass of the inliner preserves the reference semantics.**  `T'` is the unit after the pass (every
+procedure body rewritten, each under its own policy, with the original bodies of its callees); `e` is any
+expression evaluated in any frame `s`, rewritten under any policy.  The original yields `(v, s')` for some call
+depth iff the rewritten program does.  (So also: one is an error or diverges iff the other is.) -/
+theorem inline_preserves {thr : Nat} {T T' : List FnDef} (hrel : Rel thr T T') (pol : Nat → Bool)
+    (e : IR) (s : List Val) (r : Val × List Val) :
+    (∃ F, evalIR T F e s = some r) ↔ (∃ F, evalIR T' F (inline T pol thr s.length e) s = some r) :=
+  ⟨fun ⟨F, h⟩ => ⟨F, inline_fwd hrel F e s pol r h⟩, fun ⟨F, h⟩ => ⟨2 * F + 1, inline_bwd hrel F e s pol r h⟩⟩
+
+/-- The unit produced by `inlineProg` is related to the original. -/
+theorem rel_inlineProg (thr : Nat) (T : List FnDef) (pol : Nat → Nat → Bool) : Rel thr T (inlineProg T pol thr) := by
+  refine ⟨by simp [inlineProg], fun c fd hc => ⟨pol c, ?_⟩⟩
+  simp [inlineProg, List.getElem?_mapIdx, hc]
+
+/-- Whole programs: all procedure bodies and the main expression inlined (main runs in the empty frame). -/
+theorem inline_prog_preserves (thr : Nat) (T : List FnDef) (pol : Nat → Nat → Bool) (polMain : Nat → Bool)
+    (main : IR) (v : Val) :
+    (∃ F, (evalIR T F main []).map (·.1) = some v) ↔
+    (∃ F, (evalIR (inlineProg T pol thr) F (inline T polMain thr 0 main) []).map (·.1) = some v) := by
+  have key := fun r => inline_preserves (rel_inlineProg thr T pol) polMain main [] r
+  constructor
+  · rintro ⟨F, h⟩
+    cases hr : evalIR T F main [] with
+    | none => rw [hr] at h; cases h
+    | some r =>
+      rw [hr] at h
+      obtain ⟨F', h'⟩ := (key r).mp ⟨F, hr⟩
+      exact ⟨F', by rw [show (0 : Nat) = ([] : List Val).length from rfl, h']; exact h⟩
+  · rintro ⟨F, h⟩
+    cases hr : evalIR (inlineProg T pol thr) F (inline T polMain thr ([] : List Val).length main) [] with
+    | none => rw [show (0 : Nat) = ([] : List Val).length from rfl, hr] at h; cases h
+    | some r =>
+      rw [show (0 : Nat) = ([] : List Val).length from rfl, hr] at h
+      obtain ⟨F', h'⟩ := (key r).mpr ⟨F, hr⟩
+      exact ⟨F', by rw [h']; exact h⟩
+
+/-- `STEEL_INLINE`: the pass runs a second time (threshold 75) on the output of the first (threshold 50). -/
+theorem inline_twice_preserves {T T1 T2 : List FnDef} (h1 : Rel 50 T T1) (h2 : Rel 75 T1 T2)
+    (pol1 pol2 : Nat → Bool) (e : IR) (s : List Val) (r : Val × List Val) :
+    (∃ F, evalIR T F e s = some r) ↔
+    (∃ F, evalIR T2 F (inline T1 pol2 75 s.length (inline T pol1 50 s.length e)) s = some r) :=
+  (inline_preserves h1 pol1 e s r).trans (inline_preserves h2 pol2 _ s r)
+
+/-! ## (b) Tiers -/
+
+/-- **Tier transparency.**  If one native instruction does what the interpreter's instruction does, then for
+every schedule of hand-overs (enter native code, run `k + 1` instructions on the current tier, deoptimise — at
+any instruction boundary, any number of times) the machine computes exactly what the interpreter computes.
+The hypothesis is what the differential run tests; it is not proved (Cranelift code generation). -/
+theorem tier_transparent (fns : List FnDef) (native : VM → StepRes) (hN : ∀ vm, native vm = stepVM fns vm)
+    (sched : List Ev) (fuel : Nat) (vm : VM) :
+    runTiered (mkImpl fns native) sched fuel vm = runVM fns (schedSteps sched + fuel) vm :=
+  runTiered_eq fns native hN sched fuel vm
+
+/-- The hypothesis is needed: with a native `call` that omits the arity check, a schedule that enters native
+code makes `(two 1)` for `(define (two a b) a)` return 1 where the interpreter reports an error. -/
+theorem tier_hypothesis_needed :
+    let fns : List FnDef := [{ arity := 2, body := .loc 0 }]
+    let vm := initVM (.call 0 [.const (.int 1)])
+    runTiered (mkImpl fns (sloppyNative fns)) [.enter, .run 9] 10 vm = some (.int 1) ∧
+    runVM fns (schedSteps [.enter, .run 9] + 10) vm = none ∧
+    runTiered (mkImpl fns (sloppyNative fns)) [.run 9] 10 vm = none := by decide
+
+/-! ## (c) Histories -/
+
+/-- The full statement: unit-local inlining is unobservable in every history. -/
+def InlineHistoryFull (thr : Nat) : Prop :=
+  ∀ h : History, ObsEquiv (runHistory .plain h []) (runHistory (.inlining thr) h [])
+
+/-- **Provable part**: every history in which no piece assigns a cell that an earlier piece could inline
+(a cell that piece defined by `define`, small enough, and did not assign itself). -/
+theorem inline_history_partial (thr : Nat) (h : History) (hg : noLaterAssign thr h 0 [] = true) :
+    ObsEquiv (runHistory .plain h []) (runHistory (.inlining thr) h []) :=
+  history_inv h [] [] [] ⟨rfl, fun c fd hc => by simp at hc⟩ hg
+
+/-- `(define (f) 1) (define (g) (f))` ; `(set! f (lambda () 2))` ; `(g)`. -/
+def witness : History :=
+  [[.define { arity := 0, body := .const (.int 1) }, .define { arity := 0, body := .call 0 [] }],
+   [.assign 0 { arity := 0, body := .const (.int 2) }],
+   [.eval (.call 1 [])]]
+
+theorem witness_outside_guard : noLaterAssign 50 witness 0 [] = false := by decide
+
+theorem witness_plain : runHistory .plain witness [] =
+    [([{ arity := 0, body := .const (.int 2) }, { arity := 0, body := .call 0 [] }], .call 1 [])] := rfl
+
+theorem witness_inlined : runHistory (.inlining 50) witness [] =
+    [([{ arity := 0, body := .const (.int 2) }, { arity := 0, body := .const (.int 1) }], .call 1 [])] := rfl
+
+/-- **The full statement is false** for the code as it is: in the witness the plain run observes 2 and the
+inlining run observes 1 (the copy of `f`'s old body inside `g`). -/
+theorem inline_history_false : ¬ InlineHistoryFull 50 := by
+  intro hfull
+  have h := hfull witness
+  rw [witness_plain, witness_inlined] at h
+  have h2 := (h.1 (.int 2)).mp ⟨2, by simp [Obs.value, evalIR, evalArgs]⟩
+  obtain ⟨n, hn⟩ := h2
+  cases n with
+  | zero => simp [Obs.value, evalIR] at hn
+  | succ n => simp [Obs.value, evalIR, evalArgs] at hn
+
+/-! ## (d) Configurations -/
 
 /-- Every environment variable steel-core reads by name is either one of the five modelled switches or on the
 list of variables that do not select an execution strategy; and all five switches are still there. -/
@@ -26,5 +140,42 @@ theorem quick_pairwise :
 /-- The thorough tier runs all 2^5 configurations. -/
 theorem thorough_complete :
     allConfigs.length = 32 ∧ allConfigs.Nodup ∧ (allConfigs.all fun c => c.length == modelledSwitches.length) = true := by decide
+
+/-! ## Non-vacuity -/
+
+/-- `(define (inc x) (+ x 1)) (define (twice x) (inc (inc x)))`, main `(twice 5)`. -/
+def incFn : FnDef := { arity := 1, body := .prim .add (.loc 0) (.const (.int 1)) }
+def twiceFn : FnDef := { arity := 1, body := .call 0 [.call 0 [.loc 0]] }
+
+/-- The pass really rewrites: both calls of `inc` inside `twice` become lets over the shifted body. -/
+example : (inlineFn [incFn, twiceFn] (unitPolicy [] 1) 50 twiceFn).body =
+    .let1 (.let1 (.loc 0) (.prim .add (.loc 1) (.const (.int 1)))) (.prim .add (.loc 1) (.const (.int 1))) := rfl
+
+/-- … and `inline_prog_preserves` applies to a program that has a value (7) — computed here on both sides. -/
+example : (evalIR [incFn, twiceFn] 3 (.call 1 [.const (.int 5)]) []).map (·.1) = some (.int 7) := by
+  simp [evalIR, evalArgs, incFn, twiceFn, Op.apply]
+example : (evalIR (inlineProg [incFn, twiceFn] (unitPolicy []) 50) 1
+    (inline [incFn, twiceFn] (fun _ => true) 50 0 (.call 1 [.const (.int 5)])) []).map (·.1) = some (.int 7) := by
+  simp [evalIR, evalArgs, incFn, twiceFn, Op.apply, inlineProg, inlineFn, inline, inlineArgs, eligible, size, sizeArgs,
+    unitPolicy, bindArgs, shift, shiftArgs, List.mapIdx, List.mapIdx.go]
+
+/-- `tier_transparent` on a run that halts with a value while the schedule switches tiers three times. -/
+example : runTiered (mkImpl [sumFn] (stepVM [sumFn])) [.run 3, .enter, .run 20, .deopt, .run 2, .enter] 200
+    (initVM (.call 0 [.const (.int 4), .const (.int 0)])) = some (.int 10) := by decide
+
+/-- A history inside the guard in which inlining happens and a later piece assigns a NON-inlinable cell
+(`f` is assigned in its own unit, so the unit does not inline it). -/
+def guarded : History :=
+  [[.define { arity := 0, body := .const (.int 1) }, .define { arity := 0, body := .call 0 [] },
+    .assign 0 { arity := 0, body := .const (.int 3) }, .define { arity := 0, body := .call 1 [] }],
+   [.assign 0 { arity := 0, body := .const (.int 2) }],
+   [.eval (.call 2 [])]]
+
+example : noLaterAssign 50 guarded 0 [] = true := by decide
+example : ObsEquiv (runHistory .plain guarded []) (runHistory (.inlining 50) guarded []) :=
+  inline_history_partial 50 guarded (by decide)
+/-- cell 2 (`h`) got the body of `g` (a call of `f`), not a copy of `f`'s body. -/
+example : (runHistory (.inlining 50) guarded []).map (fun o => o.1.map (·.body)) =
+    [[.const (.int 2), .call 0 [], .call 0 []]] := rfl
 
 end SteelVerif.C02
